@@ -54,23 +54,9 @@ fn kind_of(a: &MigrationAction) -> &'static str {
     }
 }
 
-struct Out {
-    rows: Vec<Value>,
-    histories: Vec<Value>,
-}
-
-/// One row per migration of the history (stops at the first plan that does not replay).
-fn emit_history(out: &mut Out, tag: &str, hist: usize, history: &[MigrationPlan]) {
-    out.histories.push(json!({"hist": hist, "tag": tag, "history": history}));
-    for k in 0..history.len() {
-        let Ok(baseline) = schema_from_plans(&history[..k]) else { return };
-        let plan = &history[k];
-        let after = schema_from_plans(&history[..=k]);
-        let after_g = match &after {
-            Ok(s) => format!("(Ok {})", s.gs()),
-            Err(e) => format!("(Err {})", PErr(e).gs()),
-        };
-        let r = catch_unwind(AssertUnwindSafe(|| match build_plan_queries(plan, &baseline) {
+/// the MySQL statements of build_plan_queries(plan, baseline) per action, empty strings dropped
+fn mysql_sql(plan: &MigrationPlan, baseline: &[TableDef]) -> (Value, &'static str) {
+    let r = catch_unwind(AssertUnwindSafe(|| match build_plan_queries(plan, baseline) {
             Ok(qs) => {
                 let per_action: Vec<Vec<String>> = qs
                     .iter()
@@ -98,7 +84,7 @@ fn emit_history(out: &mut Out, tag: &str, hist: usize, history: &[MigrationPlan]
             // (builder.rs:23-90) over the MySQL builder alone so the MySQL statements are still judged.
             whole = if result.get("panic").is_some() { "panic" } else { "err" };
             let r2 = catch_unwind(AssertUnwindSafe(|| {
-                let mut evolving = baseline.clone();
+                let mut evolving = baseline.to_vec();
                 let mut per_action: Vec<Vec<String>> = vec![];
                 for a in &plan.actions {
                     match build_action_queries_with_pending(&DatabaseBackend::MySql, a, &evolving, &[]) {
@@ -114,13 +100,42 @@ fn emit_history(out: &mut Out, tag: &str, hist: usize, history: &[MigrationPlan]
                 Err(_) => json!({"panic": true}),
             };
         }
+    (result, whole)
+}
+
+struct Out {
+    rows: Vec<Value>,
+    histories: Vec<Value>,
+    literal: String,
+}
+
+/// One row per migration of the history (stops at the first plan that does not replay).
+fn emit_history(out: &mut Out, tag: &str, hist: usize, history: &[MigrationPlan]) {
+    out.histories.push(json!({"hist": hist, "tag": tag, "history": history}));
+    for k in 0..history.len() {
+        let Ok(baseline) = schema_from_plans(&history[..k]) else { return };
+        let plan = &history[k];
+        let after = schema_from_plans(&history[..=k]);
+        let after_g = match &after {
+            Ok(s) => format!("(Ok {})", s.gs()),
+            Err(e) => format!("(Err {})", PErr(e).gs()),
+        };
+        let (result, whole) = mysql_sql(plan, &baseline);
+        // C14: the same migration of the project whose tables are literally named prefix+name
+        let literal = if out.literal.is_empty() {
+            Value::Null
+        } else {
+            let lb: Vec<TableDef> = baseline.iter().map(|t| gener::literal_table(&out.literal, t)).collect();
+            let lp = MigrationPlan { actions: plan.actions.iter().map(|a| gener::literal_action(&out.literal, a)).collect(), ..plan.clone() };
+            mysql_sql(&lp, &lb).0
+        };
         let kinds: Vec<&str> = plan.actions.iter().map(kind_of).collect();
         out.rows.push(json!({
             "tag": tag, "hist": hist, "step": k,
             "baseline_g": baseline.gs(), "actions_g": plan.actions.gs(), "after_g": after_g,
             "baseline": baseline, "plan": plan, "history_len": history.len(),
             "replay_ok": after.is_ok(),
-            "result": result, "whole": whole, "action_kinds": kinds, "n_tables": baseline.len(),
+            "result": result, "whole": whole, "literal": literal, "action_kinds": kinds, "n_tables": baseline.len(),
         }));
         if after.is_err() {
             return;
@@ -502,7 +517,7 @@ fn main() {
     std::fs::create_dir_all(&outdir).unwrap();
     std::panic::set_hook(Box::new(|_| {})); // panics are outcomes (catch_unwind), not noise
     let mut rng = Rng::new(seed);
-    let mut out = Out { rows: vec![], histories: vec![] };
+    let mut out = Out { rows: vec![], histories: vec![], literal: arg(&args, "--literal", "") };
     let mut hist = 0usize;
     let mut rejected = 0usize;
 
